@@ -23,7 +23,9 @@ META = {
     'wall_cap': {'quick': 900, 'thorough': 3300},
     'rule': ('seeded balanced histories (<=40 ops, nesting <=6) over 8 group kinds; non-trivial iff some definition, alias or '
              'catcode change made at depth>=1 is probed both inside and after its group; distinct = digest of the op list; '
-             'distinct_states = distinct model frame-stack digests'),
+             'distinct_states = distinct model frame-stack digests. Plus a bounded EXHAUSTIVE part on the API transport: every '
+             'sequence of 4 (quick) / 6 (thorough) operations over an 11-letter alphabet (open group/env, close, 2 local defs, '
+             'global def, let, 2 catcodes, char let, declaration; <=3 frames open), counted under dense_sweep_cases'),
     'components': {'real': ['plasTeX.Context (push/pop/createContext/mapMethods, addLocal/addGlobal, newdef, let/get_let, catcode/whichCode, newif, counters)',
                             'plasTeX.TeX + Base macros (bgroup/egroup, begingroup, Environment, MathShift, tabular cells, argument groups) for the TeX transport'],
                    'stub': ['none: no file, clock or scheduler is touched; the simulator issues the operation history']},
@@ -32,10 +34,11 @@ META = {
                     'by a one-letter marker token; no catcode op inside an argument group; \\gdef writes the bottom frame and '
                     'may be shadowed by a live local definition (lookup yields the innermost live definition)',
                     'no fault space exists for this property (sequential refinement only)'],
-    'probe_names': ['declaration_frame', 'change_after_declaration_restored', 'char_let_shadowed', 'local_def_restored', 'global_def_survives', 'let_restored', 'catcode_restored', 'if_survives', 'counter_survives',
+    'probe_names': ['dfs_exhaustive', 'declaration_frame', 'change_after_declaration_restored', 'char_let_shadowed', 'local_def_restored', 'global_def_survives', 'let_restored', 'catcode_restored', 'if_survives', 'counter_survives',
                     'nested_depth_ge3', 'env_inside_group', 'group_inside_env', 'math_group', 'cell_scope', 'argument_group',
                     'gdef_shadowed', 'catcode_cow_two_frames'],
     'shrink_budget': 400,
+    'enum_batch': {'quick': 8, 'thorough': 1},
 }
 
 NAMES = ['na', 'nb', 'nc']
@@ -458,8 +461,87 @@ def prepare():
     disableLogging()
 
 
+# --------------------------------------------------------------------------
+# bounded exhaustive part on the context API ("exhaustively up to a bound, randomly beyond")
+
+DFS_ALPHABET = [{'op': 'OPEN', 'kind': 'brace'}, {'op': 'OPEN', 'kind': 'center'}, {'op': 'CLOSE'},
+                {'op': 'DEF_LOCAL', 'name': 'na'}, {'op': 'DEF_LOCAL', 'name': 'nb'}, {'op': 'DEF_GLOBAL', 'name': 'na'},
+                {'op': 'LET', 'dst': 'na', 'src': 'nb'}, {'op': 'CATCODE', 'code': 11}, {'op': 'CATCODE', 'code': 12},
+                {'op': 'LETCHAR', 'dst': 'la', 'ch': 'u'}, {'op': 'DECL', 'name': 'small'}]
+
+
+def dfs_sequences(prefix, depth, maxopen=3):
+    """Every sequence of `depth` further ops (no CLOSE with nothing open, at most `maxopen` frames open)."""
+    def opened(seq):
+        d = 0
+        for o in seq:
+            d += 1 if o['op'] == 'OPEN' else (-1 if o['op'] == 'CLOSE' else 0)
+        return d
+
+    def rec(seq, left):
+        if left == 0:
+            yield seq
+            return
+        d = opened(seq)
+        for a in DFS_ALPHABET:
+            if a['op'] == 'CLOSE' and d == 0:
+                continue
+            if a['op'] == 'OPEN' and d >= maxopen:
+                continue
+            for x in rec(seq + [a], left - 1):
+                yield x
+    return rec(list(prefix), depth)
+
+
+def run_dfs(prefix, depth, res):
+    n = 0
+    states = set()
+    for seq in dfs_sequences(prefix, depth):
+        ops = []
+        for k, o in enumerate(seq):
+            ops.append(dict(o, id=k + 1) if o['op'] in ('DEF_LOCAL', 'DEF_GLOBAL') else o)
+        ops = balance(ops)
+        api_ops = [dict(o, kind={'center': 'center'}.get(o.get('kind'), 'group')) if o['op'] == 'OPEN' else o for o in ops]
+        n += 1
+        try:
+            m, st = run_api(api_ops)
+            states.update(st)
+        except ApiViolation as v:
+            res['sub_evaluations'] = res.get('sub_evaluations', 0) + n
+            return {'sig': v.sig, 'detail': dict(v.detail, sequence=ops)}
+    res['sub_evaluations'] = res.get('sub_evaluations', 0) + n
+    res['sub_distinct'] = res.get('sub_distinct', 0) + n
+    res['states'] = list(set(res['states']) | states)
+    return None
+
+
+def enumerate_cases(base_seed, tier):
+    depth = 4 if tier == 'quick' else 6
+    out = []
+    k = 0
+    for a in DFS_ALPHABET:
+        if a['op'] == 'CLOSE':
+            continue
+        for b in DFS_ALPHABET:
+            if b['op'] == 'CLOSE' and a['op'] != 'OPEN':
+                continue
+            out.append({'property': PID, 'seed': core.h64('C04-dfs', k), 'swarm': {'transports': ['api']},
+                        'ops': [a, b, {'op': 'DFS', 'depth': depth - 2}]})
+            k += 1
+    return out
+
+
 def execute(record):
     res = core.empty_result()
+    dfs = [o for o in record['ops'] if o.get('op') == 'DFS']
+    if dfs:
+        prefix = [o for o in record['ops'] if o.get('op') != 'DFS']
+        v = run_dfs(prefix, dfs[0].get('depth', 1), res)
+        res['violations'] = [v] if v else []
+        res['probes'] = {'dfs_exhaustive': 1}
+        res['nontrivial'] = True
+        res['digest'] = res['log_digest'] = core.hexdigest(record['ops'])
+        return res
     ops = balance([o for o in record['ops'] if 'op' in o])
     info, viol, log = {}, [], []
     states = []
